@@ -1,7 +1,7 @@
 (* C18 Every operator honours the stream contract its consumers rely on.
    Property theorems only; proofs in StreamWF.v. *)
 From Coq Require Import List ZArith NArith Bool.
-From Verif Require Import Base Grid Select Shard Exec Compose StreamWF.
+From Verif Require Import Base Grid Select Shard Exec Compose StreamWF Bin BinProofs.
 Import ListNotations.
 Open Scope Z_scope.
 
@@ -32,3 +32,14 @@ Proof.
   - exact (counter_batches_cover_grid B w HB Hw).
 Qed.
 Print Assumptions C18_generators_agree.
+
+(* The vector/vector binary operator: the sample IDs of every step vector it
+   emits are pairwise distinct (the per-step pairing of Bin.v, which the real
+   table computes at every step by C05_table_is_pairing). *)
+Theorem C18_join_ids_unique :
+  forall (V : Type) (op : V -> V -> V * bool) (b2v : bool -> V) (c : Bin.card) (return_bool : bool)
+         (hidx : list (option nat)) (lidx : list (list nat)) (lhs rhs : list (nat * V)),
+  NoDup (BinProofs.all_outs V (Bin.rhs_outs c hidx lidx) rhs) ->
+  NoDup (map fst (Bin.pure_step V op b2v c return_bool hidx lidx lhs rhs)).
+Proof. exact BinProofs.pure_step_ids_unique. Qed.
+Print Assumptions C18_join_ids_unique.
